@@ -29,14 +29,20 @@ func loadVariant(s Subject, variant int, b []byte) error {
 
 func (w *jsonWorld) Gen(seed uint64, tier string) *Plan {
 	r := NewRng(seed)
+	if w.prop == "C11" && r.P(1, 6) {
+		return genVals(r, tier) // the value-types sub-world
+	}
 	cfg := genCfg(r, allKinds, tier)
 	if cfg.Dom > 32 {
 		cfg.Dom = []int{4, 8, 12, 16, 24, 32}[r.Intn(6)]
 	}
 	if w.prop == "C12" && usesCmp(cfg.Kind) && r.P(2, 3) {
-		cfg.Cmp = r.PickS("nat", "rev", "natbig") // mostly identity classes; coarsened comparators keep their share
+		cfg.Cmp = r.PickS("nat", "rev", "natbig", "diff") // mostly identity classes; coarsened comparators keep their share
 		if cfg.Kind == "treebidimap" {
-			cfg.VCmp = r.PickS("nat", "rev", "natbig")
+			cfg.VCmp = r.PickS("nat", "rev", "natbig", "diff")
+		}
+		if cfg.Cmp != "nat" || (cfg.VCmp != "" && cfg.VCmp != "nat") {
+			cfg.Ctor = "" // the default-comparator constructor only goes with the natural order
 		}
 	}
 	p := &Plan{World: "json", Cfg: cfg}
@@ -57,6 +63,17 @@ func (w *jsonWorld) Gen(seed uint64, tier string) *Plan {
 	}
 	var stale [][]byte
 	id := 0
+	if !sweep && r.P(1, 40) {
+		// a large container: array capacities beyond 1024, trees several levels deep
+		p.Cfg.Dom = []int{32, 256, 1024}[r.Intn(3)]
+		s = makeSubject(p.Cfg, false)
+		op := genFill(r, id, 1030, 2200)
+		s.ModelApply(op)
+		p.Ops = append(p.Ops, op)
+		p.Cfg.Mode = "big"
+		id++
+		n = min(n, 25)
+	}
 	genLoad := func() {
 		var base []byte
 		var kinds []string
@@ -193,6 +210,9 @@ func checkpoint(s Subject, o *Oracle) ([]byte, bool) {
 }
 
 func (w *jsonWorld) Exec(p *Plan, st *RunStats) *Violation {
+	if p.World == "json-vals" {
+		return execVals(p, st)
+	}
 	attach(p)
 	start := stepCount
 	s := makeSubject(p.Cfg, false)
